@@ -26,12 +26,12 @@ import (
 )
 
 type obj struct {
-	isCtx  bool
-	lg     zerolog.Logger
-	cx     zerolog.Context
-	m      seqx.RefLogger
-	origin string // how it was made (for signatures)
-	parent int
+	isCtx        bool
+	lg           zerolog.Logger
+	cx           zerolog.Context
+	m            seqx.RefLogger
+	origin       string // how it was made (for signatures)
+	parent       int
 	fromCtxValue bool // derived by a field call on a Context VALUE (not directly from With())
 }
 
@@ -43,14 +43,14 @@ type openEvent struct {
 }
 
 type world struct {
-	objs   []*obj
-	events []*openEvent
-	w      *seqx.World
-	lines  [2][][]byte
-	seen   []context.Context // contexts observed by probe marshalers
-	n      int               // counter for fresh names
-	pending []*openEvent     // events finalised during the sequence, in order
-	updated map[int]bool     // loggers on which UpdateContext was applied
+	objs    []*obj
+	events  []*openEvent
+	w       *seqx.World
+	lines   [2][][]byte
+	seen    []context.Context // contexts observed by probe marshalers
+	n       int               // counter for fresh names
+	pending []*openEvent      // events finalised during the sequence, in order
+	updated map[int]bool      // loggers on which UpdateContext was applied
 }
 
 type sw struct {
